@@ -266,7 +266,7 @@ def hostile_op(rng, w, conv):
 # ------------------------------------------------------------------ output parsing
 TOK = re.compile(r"\[[^\]]*\]|\S+")
 SUM_FIELDS = ["state", "snd_una", "snd_nxt", "rcv_nxt", "snd_wnd", "rcv_wnd", "cwnd", "ssthresh", "rx_rto", "rto_base", "t_ack",
-              "dup_acks", "mss", "sbuf", "rbuf", "nslist", "flags3", "swnd_scale"]
+              "dup_acks", "mss", "sbuf", "rbuf", "nslist", "flags3", "swnd_scale", "rbuf_len", "rbuf_cap"]
 RECV_FIN_STATES = {4, 7, 8, 9, 10}
 
 
@@ -394,6 +394,9 @@ def oracle(line, out, want=("C08", "C09", "C10"), want_window_sink=None):
                     if len(read[w]) < g:
                         return "end-of-stream reported to %s after %d of %d bytes written before the peer's graceful close" % ("AB"[w], len(read[w]), g)
         for sm in sums:
+            if "C10" in want and isinstance(sm.get("rbuf_len"), int) and isinstance(sm.get("rbuf_cap"), int) and sm["rbuf_len"] != sm["rbuf_cap"]:
+                return ("the receive-buffer size the socket works with (rcv-buf, window arithmetic: %d) differs from the capacity of its receive FIFO (%d): "
+                        "the advertised window no longer describes the space that exists" % (sm["rbuf_len"], sm["rbuf_cap"]))
             if "C10" in want:
                 if isinstance(sm.get("rbuf"), int) and sm["rbuf"] > max(rbuf_len) * 2 + 70000:
                     return "receive buffer holds %d bytes" % sm["rbuf"]
